@@ -2,7 +2,7 @@ import DendroModel.Model.C16
 open DendroModel DendroModel.C16
 
 /-! protocol
-`hist <tree> | <op> | <op> …`   ops: `C <obj>` (clone object) or
+`hist <tree> | <op> | <op> …`   ops: `C <obj>` (clone object), `M`/`E`/`SM` (matrix objects and in-place edits, see `parseOp`) or
                                 `S <obj> <alphabet> <gaps_as_missing 0/1> <weights: - (None), . (empty list) or w,w,…> <taxonbit> =<symbols> …`
    → one result per op joined by ` | `: `ok <score> <by,by,…>`, `KeyError`, `ValueError`, `IndexError`, `c`
 `sets <alphabet> <0/1> =<symbols>`  → the state-set masks of one row
@@ -50,15 +50,17 @@ def parseRowSyms : List String → Option (List (Nat × List Char))
     | _, _, _ => none
   | _ => none
 
-/-- the matrix of a scoring call: column alphabets (a fixed alphabet = that table for every column) and `matrixOf` -/
+/-- column alphabets of a matrix: a fixed alphabet = that table for every column -/
+def parseCols (alph : String) (rows : List (Nat × List Char)) : Option (List ColAlph) :=
+  if alph.startsWith "cols:" then ((alph.drop 5).toString.splitOn ";").mapM parseCol
+  else some (List.replicate (match rows with | [] => 0 | (_, cs) :: _ => cs.length) (.table alph))
+
+/-- the matrix of a scoring call with its own matrix: `matrixOf` -/
 def parseRows (alph : String) (g : Bool) (toks : List String) : Option Matrix :=
   match parseRowSyms toks with
   | none => none
   | some rows =>
-    let cols : Option (List ColAlph) :=
-      if alph.startsWith "cols:" then ((alph.drop 5).toString.splitOn ";").mapM parseCol
-      else some (List.replicate (match rows with | [] => 0 | (_, cs) :: _ => cs.length) (.table alph))
-    match cols with
+    match parseCols alph rows with
     | none => none
     | some cols => matrixOf cols g rows
 
@@ -70,8 +72,15 @@ def parseWeights (s : String) : Option (Option (List Nat)) :=
 def parseFlag (s : String) : Option Bool :=
   if s == "1" then some true else if s == "0" then some false else none
 
-def parseOp : List String → Option Op
-  | ["C", j] => j.toNat?.map Op.clone
+def parseSym1 (s : String) : Option Char :=
+  match s.toList with
+  | ['=', c] => some c
+  | _ => none
+
+/-- ops: `C obj` | `S obj alph g w rows…` (a matrix built for this call) | `M k alph rows…` (create / replace matrix object k)
+    | `E k cell bit idx =c` | `E k seq bit =syms` (in-place edits) | `SM obj k g w` (score the current content of matrix object k) -/
+def parseOp : List String → Option MOp
+  | ["C", j] => j.toNat?.map MOp.clone
   | "S" :: j :: alph :: g :: w :: rows =>
     match j.toNat?, parseFlag g, parseWeights w with
     | some j, some g, some w =>
@@ -80,16 +89,39 @@ def parseOp : List String → Option Op
         -- a non-empty rectangular matrix; the weight list may have any length (too short => IndexError when needed)
         if m.isEmpty then none
         else if !(m.all (fun r => r.2.length == nchar m)) then none
-        else some (Op.score j m w)
+        else some (MOp.score j m w)
       | none => none
     | _, _, _ => none
+  | "M" :: k :: alph :: rows =>
+    match k.toNat?, parseRowSyms rows with
+    | some k, some rs =>
+      match parseCols alph rs with
+      | some cols =>
+        -- a non-empty matrix all of whose symbols belong to their columns' alphabets
+        if rs.isEmpty || (matrixOf cols false rs).isNone then none else some (MOp.defMat k { cols := cols, rows := rs })
+      | none => none
+    | _, _ => none
+  | ["E", k, "cell", bit, idx, sym] =>
+    match k.toNat?, bit.toNat?, idx.toNat?, parseSym1 sym with
+    | some k, some b, some i, some c => some (MOp.editCell k b i c)
+    | _, _, _, _ => none
+  | ["E", k, "seq", bit, syms] =>
+    match k.toNat?, bit.toNat?, parseSyms syms with
+    | some k, some b, some cs => some (MOp.editSeq k b cs)
+    | _, _, _ => none
+  | ["SM", j, k, g, w] =>
+    match j.toNat?, k.toNat?, parseFlag g, parseWeights w with
+    | some j, some k, some g, some w => some (MOp.scoreMat j k g w)
+    | _, _, _, _ => none
   | _ => none
 
-def showRes : Res → String
+def showRes : MRes → String
   | .ok s bc => s!"ok {s} " ++ (if bc.isEmpty then "-" else ",".intercalate (bc.map toString))
   | .err e => e.name
   | .cloned => "c"
   | .badObj => "bad-obj"
+  | .matOk => "m"
+  | .badMat => "bad-mat"
 
 def parseStep (s : String) : Option Step :=
   match s with
@@ -102,7 +134,7 @@ def handle (ws : List String) : String :=
     match splitBar rest with
     | treeToks :: ops =>
       match parseTree treeToks, ops.mapM parseOp with
-      | some (t, []), some ops => " | ".intercalate ((runHist t [[]] ops).map showRes)
+      | some (t, []), some ops => " | ".intercalate ((runMHist t [[]] [] ops).map showRes)
       | _, _ => "bad-op"
     | [] => "bad-op"
   | ["sets", alph, g, syms] =>
